@@ -16,7 +16,7 @@
    3. [result_ok] over the adjacency list = [a_result_ok] over the edge-store arcs. *)
 From Coq Require Import String List Bool ZArith QArith Arith Lia.
 From GV Require Import Base.Outcome Base.AMap Model.GState Model.Creation Model.Query Model.Dijkstra.
-From GV Require Import Spec.AGraph Spec.History Spec.ShortestPathDef Spec.ShortestPathCheck Spec.ShortestPathRel.
+From GV Require Import Spec.AGraph Spec.History Spec.ShortestPathDef Spec.ShortestPathCheck Spec.ShortestPathRel Spec.EdgeStoreGraph.
 From GV Require Import Proofs.AMapOk Proofs.WFDefs Proofs.WFNode Proofs.WFAdj Proofs.WFEdge Proofs.HistoryOk
      Proofs.AdjOk Proofs.QueryOk.
 From GV Require Import Proofs.ShortestPathOk Proofs.DijkstraLoopOk Proofs.DijkstraPathsOk Proofs.DijkstraTotalOk
@@ -114,6 +114,8 @@ Section DijkstraWF.
   Notation cn := (cn tltb).
   Notation pspec := (peqb_spec teqb teqb_spec).
   Notation stored_between := (stored_between teqb tltb).
+  Notation between := (@between T A teqb).
+  Notation edge_arc := (@edge_arc T A teqb).
 
   Lemma nn_number_of_nodes (g : gstate) : nn g = number_of_nodes g.
   Proof. unfold WFDefs.nn, WFDefs.names, number_of_nodes. apply map_length. Qed.
@@ -141,10 +143,6 @@ Section DijkstraWF.
     destruct (name_at g i) as [x|] eqn:Ex; [|discriminate]. destruct (name_at g j) as [y|] eqn:Ey; [|discriminate].
     split; eapply name_at_lt_n; eauto.
   Qed.
-
-  (* the size bound of the i32 fringe counter — the one clause of [wf_adj] that is a
-     genuine restriction on the reachable graphs *)
-  Definition small_adj (g : gstate) : Prop := (Z.of_nat (number_of_entries g) < I32_MAX)%Z.
 
   Theorem WF_wf_adj (g : gstate) : WF g -> small_adj g -> wf_adj g.
   Proof.
@@ -237,17 +235,6 @@ Section DijkstraWF.
       exists row, (adjw (sp g) l). split; [exact Hrow|]. split; [|exact Hc].
       destruct (Hrows i row Hrow) as [_ Hmem]. apply Hmem. exists l. auto.
   Qed.
-
-  (* in terms of get_all_edges alone: the stored edges between two names, either
-     orientation when the graph is undirected *)
-  Definition between (g : gstate) (x y : T) : list edge :=
-    filter (fun e => peqb teqb (eu e, ev e) (x, y) ||
-                     (negb (directed (sp g)) && peqb teqb (eu e, ev e) (y, x)))
-           (get_all_edges g).
-
-  Definition edge_arc (g : gstate) (weighted : bool) (i j : nat) (c : Z) : Prop :=
-    exists x y, name_at g i = Some x /\ name_at g j = Some y /\ between g x y <> [] /\
-                cost_of weighted (adjw (sp g) (between g x y)) = Some c.
 
   Lemma in_all_edges (g : gstate) e :
     WF g -> In e (get_all_edges g) -> exists l, group g (eu e, ev e) = Some l /\ In e l.
@@ -374,11 +361,6 @@ Section DijkstraWF.
   Qed.
 
   (* ---- the sign of the costs from the sign of the stored weights ---- *)
-  Definition weights_nonneg (g : gstate) : Prop :=
-    forall e z, In e (get_all_edges g) -> ew e = Some z -> (0 <= z)%Z.
-  Definition weights_positive (g : gstate) : Prop :=
-    forall e z, In e (get_all_edges g) -> ew e = Some z -> (0 < z)%Z.
-
   Lemma edge_arc_nonneg (g : gstate) weighted :
     (weighted = true -> weights_nonneg g) -> a_nonneg (edge_arc g weighted).
   Proof.
@@ -423,12 +405,6 @@ Section DijkstraWF.
 
   (* ================================================================ end-to-end: every WF graph *)
   Notation n_of := number_of_nodes.
-
-  (* node-index paths and their node-name form *)
-  Definition names_of (g : gstate) (p : list nat) (p' : list T) : Prop :=
-    Forall2 (fun k x => name_at g k = Some x) p p'.
-  Definition info_names (g : gstate) (i : spinfo nat) (i' : spinfo T) : Prop :=
-    sp_distance i' = sp_distance i /\ Forall2 (names_of g) (sp_paths i) (sp_paths i').
 
   Lemma Forall2_imp {X Y} (R1 R2 : X -> Y -> Prop) :
     (forall a b, R1 a b -> R2 a b) -> forall l l', Forall2 R1 l l' -> Forall2 R2 l l'.
@@ -884,9 +860,6 @@ Section DijkstraWF.
   Qed.
 
   (* ---- executable forms of the two premises, for concrete graphs ---- *)
-  Definition weights_nonneg_b (g : gstate) : bool :=
-    forallb (fun e : edge => match ew e with Some z => Z.leb 0 z | None => true end) (get_all_edges g).
-
   Lemma weights_nonneg_b_sound (g : gstate) : weights_nonneg_b g = true -> weights_nonneg g.
   Proof.
     unfold weights_nonneg_b, weights_nonneg. rewrite forallb_forall. intros H e z He Hz.
